@@ -64,6 +64,11 @@ CLAIMED = {
     level="The level-ellipsoid identities are rational-function identities in the code's own closed forms (the arctan terms cancel), decided exactly for all parameters at once, arm by arm; that is stronger than any sampling of the 4-parameter space. Positivity and closeness to sphere values for small f are not decided.",
     note="Real arithmetic; arctan(e') is an uninterpreted atom; 1-f > 0 and a > 0 declared.",
     ref="DESIGN.md §2 C16"),
+ "C08": dict(
+    technique="AVN identities: every hand-written Omega(w) matrix against the extracted Hamilton product, the closed-form integrator against the exact exponential, the series integrator against matrix-power partial sums for each order, null-accelerometer dead-reckoning steps of Madgwick/Mahony/AQUA, EKF/ROLEQ predictors, angular_velocities formula",
+    level="Exactness for constant rates is the polynomial/trigonometric identity 'update == q (x) exp(w dt/2)' in the code's own formula, decided exactly (same half angle, per-call dt, matrix not element-wise powers); the stated order of the series method follows from its terms being the exponential's partial sums. Error constants are not computed.",
+    note="Real arithmetic; unit quaternions as symbols with the declared relation w^2 = 1 - x^2 - y^2 - z^2; Quaternion.ode is accepted in either frame convention (undocumented).",
+    ref="DESIGN.md §2 C08"),
 }
 
 NOT_YET = "check not built yet in this session (work in progress; see DESIGN.md §2 for the planned static rules)"
